@@ -29,7 +29,7 @@ RULE = ("byte strings = valid encodings mutated at every field / truncated at ev
         "= distinct case line")
 
 VN_WRAPS = ["coap_ticks", "coap_socket_send", "coap_socket_recv"]
-STATES = ["fresh", "obs", "blk2", "blk1", "client"]
+STATES = ["fresh", "obs", "blk2", "blk1", "client", "osc"]
 
 
 def hostile_dgram(r, state):
@@ -65,6 +65,20 @@ def hostile_dgram(r, state):
     for _ in range(r.choice([0, 1, 1, 2, 2, 3, 5])):
         n, f = r.choice(cand)
         opts.append((n, f()))
+    if state == "osc" and r.random() < 0.8:
+        # structured OSCORE option value: flag byte (n = PIV length, k, h bits, reserved bits),
+        # PIV, optional kid context (length byte + bytes), kid; lengths may lie
+        nlen = r.choice([0, 1, 1, 2, 5, 6, 7])
+        flags = nlen | (0x08 if r.random() < 0.7 else 0) | (0x10 if r.random() < 0.3 else 0) | \
+            r.choice([0, 0, 0, 0x20, 0x40, 0x80])
+        v = bytes([flags]) + gen_wire.rbytes(r, r.choice([nlen, nlen, max(0, nlen - 1)]))
+        if flags & 0x10:
+            kl = r.choice([0, 1, 8, 200])
+            v += bytes([kl]) + gen_wire.rbytes(r, r.choice([kl, 0, 3]) if kl < 100 else 2)
+        if flags & 0x08:
+            v += r.choice([b"", b"\x02", b"\x01", b"\x02\x03", gen_wire.rbytes(r, 7)])
+        opts = [o for o in opts if o[0] != 9] + [(9, v[:255])]
+        code = r.choice([2, 2, 5, 0x44, 1])
     if state != "client" or r.random() < 0.2:
         opts.append((11, path))
     opts.sort(key=lambda o: o[0])
